@@ -10,10 +10,10 @@ ID = "C12"
 #: functions the hand-written model transcribes: their control skeleton (extract/shape.py) is regenerated into
 #: Gen/C12.lean and compared with the literal in Properties/C12.lean (`modelled_functions_have_the_transcribed_shape`)
 SHAPES = [
-    ("shapeDigitize2tree", "mlinsights/mltree/tree_digitize.py", "digitize2tree"),
-    ("shapeTreeLeaveIndex", "mlinsights/mltree/tree_structure.py", "tree_leave_index"),
+    ("shapeDigitize2tree", "mlinsights/mltree/tree_digitize.py", "digitize2tree", "full"),
+    ("shapeTreeLeaveIndex", "mlinsights/mltree/tree_structure.py", "tree_leave_index", "full"),
     ("shapeTreeNodeRange", "mlinsights/mltree/tree_structure.py", "tree_node_range"),
-    ("shapePredictLeaves", "mlinsights/mltree/tree_structure.py", "predict_leaves"),
+    ("shapePredictLeaves", "mlinsights/mltree/tree_structure.py", "predict_leaves", "full"),
     ("shapeTreeNodeParents", "mlinsights/mltree/tree_structure.py", "tree_node_parents"),
 ]
 SRC_DIG = "mlinsights/mltree/tree_digitize.py"
@@ -43,7 +43,8 @@ ASSUMPTIONS = [
     "digitize_asc/digitize_desc are stated over the value the tree actually compares, float32(x): scikit-learn casts X "
     "to float32, so for an x that float32 rounding moves across a bin edge the prediction differs from "
     "numpy.digitize(x, bins) (known finding %s, not repairable inside mlinsights)" % KEY_F32,
-    "x is a finite number within float32 range (scikit-learn rejects infinities; NaN follows missing-value routing)",
+    "x is a number within float32 range (scikit-learn rejects infinities); the proofs speak about finite x; x = NaN "
+    "(which numpy.digitize places beyond the last edge and the tree routes by `missing_go_to_left`) is covered by the search only",
     "query points of the tree utilities are float32-representable (the box of tree_node_range is compared with the "
     "routing of the same values the tree sees)",
     "a feature without a row in the array returned by tree_node_range is read as unbounded (like a nan entry)",
@@ -400,7 +401,8 @@ def gen_tree_case(rng, small=False):
     d = rng.randint(1, 4)
     n = rng.randint(1, 6) if small else rng.randint(1, 30)
     grid = rng.choice([2, 3, 5, 9])
-    X = [[rng.randint(0, grid) / rng.choice([1, 2, 4]) for _ in range(d)] for _ in range(n)]
+    off = rng.choice([0, 0, 0, -1, -3, -5])        # "all fitted trees": features (hence thresholds) of either sign
+    X = [[rng.randint(0, grid) / rng.choice([1, 2, 4]) + off for _ in range(d)] for _ in range(n)]
     kind = rng.choice(["reg", "clf"])
     if kind == "reg":
         y = [rng.randint(-8, 8) / 2 for _ in range(n)]
@@ -732,7 +734,7 @@ def search(ctx, hints):
         else:
             vals = sorted({round(rng.uniform(-5, 5), rng.choice([1, 2, 6])) for _ in range(n)})
             bins = vals[::-1] if rng.random() < 0.5 and len(vals) > 1 else vals               # decimal edges
-        xs = query_values(bins) + [rng.uniform(-6, 6) for _ in range(4)]
+        xs = query_values(bins) + [rng.uniform(-6, 6) for _ in range(4)] + [float("nan")]   # numpy.digitize orders NaN last
         # the float32 roundings of the edges and their float32 neighbours: float32-representable points (so the cast of x
         # is harmless) that lie within one float32 ulp of an edge, on either side
         for b_ in bins[:12]:
@@ -759,7 +761,8 @@ def search(ctx, hints):
         if rng.random() < 0.5:
             vals = vals[::-1]
         dt = rng.choice(["uint8", "uint16", "uint32", "uint64", "int8", "int32", "int64", "list", "float32"])
-        typed.append((vals, [float(v) for v in query_values(vals)] + [rng.uniform(-3, 125) for _ in range(3)], dt))
+        typed.append((vals, [float(v) for v in query_values(vals)] + [rng.uniform(-3, 125) for _ in range(3)]
+                      + [float("nan")], dt))
     for bins, xs, dt in typed:
         evals += len(xs)
         nontriv.add(("dig", tuple(bins), dt))
@@ -772,7 +775,11 @@ def search(ctx, hints):
         if len(samples) < 2:
             samples.append({"op": "digitize", "bins": bins[:6], "n_x": len(xs), "violations": len(bad)})
     # (b) tree utilities: single-leaf trees first (smallest fitted trees), then generated ones
-    tcases = [{"kind": "reg", "X": [[0.0]], "y": [1.0], "params": {"random_state": 0}},
+    tcases = [{"kind": "clf", "X": [[-3.0], [-1.0], [-3.0], [-1.0], [1.0], [3.0]], "y": [0, 1, 0, 1, 2, 3],
+               "params": {"random_state": 0}},      # split thresholds -2.0, 0.0, 2.0: the values scikit-learn uses as
+              {"kind": "reg", "X": [[-2.0, 5.0], [0.0, 5.0], [-2.0, 7.0], [0.0, 7.0]], "y": [0.0, 1.0, 2.0, 3.0],
+               "params": {"random_state": 0}},      # "undefined" (-2) and "leaf" (-1) markers are ordinary thresholds here
+              {"kind": "reg", "X": [[0.0]], "y": [1.0], "params": {"random_state": 0}},
               {"kind": "clf", "X": [[0.0, 1.0], [1.0, 0.0]], "y": [1, 1], "params": {"random_state": 0}},
               {"kind": "clf", "X": [[0, 0], [0, 1], [0, 2], [1, 0], [1, 1], [1, 2], [2, 0], [2, 1], [2, 2]],
                "y": list(range(9)), "params": {"max_depth": 4, "random_state": 0}}]
